@@ -24,12 +24,32 @@ theorem fileIdx_eq : fileIdx = Splice.Out.srcIdx := by
 
 theorem deletedB_eq (pls : List (Hunk × Nat)) (i : Nat) : deletedB pls i = Splice.delB pls i := rfl
 
-/-- the admissibility predicate includes "the old side fits in the file" -/
+/-- the admissibility predicate includes "the old side fits in the file, but for the lines at its end which fuzz ignores" (D99) and
+    "the hunk starts inside the file" -/
 theorem admissibleB_fit {file : List Line} {h : Hunk} {iw : Bool} {maxFuzz : Int} {p f : Nat}
-    (hadm : admissibleB file h iw maxFuzz p f = true) : p + (oldOf h.lines).length ≤ file.length := by
-  unfold admissibleB at hadm
-  simp only [Bool.and_eq_true, decide_eq_true_eq] at hadm
-  exact hadm.1.2
+    (hadm : admissibleB file h iw maxFuzz p f = true) :
+    p + (oldOf h.lines).length ≤ file.length + (fuzzPair h.lines f).2 ∧ p < file.length := by
+  obtain ⟨_, _, _, h1, h2, _⟩ := (admissibleB_iff file h iw maxFuzz p f).1 hadm
+  exact ⟨h1, h2⟩
+
+/-- without fuzz the old side of an admissible placement lies inside the file -/
+theorem admissibleB_fit_zero {file : List Line} {h : Hunk} {iw : Bool} {maxFuzz : Int} {p : Nat}
+    (hadm : admissibleB file h iw maxFuzz p 0 = true) : p + (oldOf h.lines).length ≤ file.length := by
+  have := (admissibleB_fit hadm).1
+  rw [fuzzPair_snd] at this
+  omega
+
+/-- whatever of an admissible placement lies beyond the end of the file is context, not a deletion -/
+theorem admissibleB_tail {file : List Line} {h : Hunk} {iw : Bool} {maxFuzz : Int} {p f : Nat}
+    (hadm : admissibleB file h iw maxFuzz p f = true) :
+    ∀ k, file.length ≤ p + k → Splice.delAt h.lines k = false := by
+  intro k hk
+  unfold Splice.delAt
+  split
+  · next pl hpl =>
+    rw [admissible_beyond_SP file h iw maxFuzz p f hadm k hk pl hpl]
+    decide
+  · rfl
 
 /-- C02 at the locator level (`locate_sound`, `locate_insertion`) in the form the hunk loop uses -/
 theorem locatorSound (file : List Line) (iw : Bool) (maxFuzz : Int) : Apply.LocatorSound file iw maxFuzz := by
@@ -37,9 +57,10 @@ theorem locatorSound (file : List Line) (iw : Bool) (maxFuzz : Int) : Apply.Loca
   by_cases hc : h.old.count = 0
   · obtain ⟨_, _, h3, h4, h5⟩ := locate_insertion file h iw off maxFuzz minLine l hl hc
     have hlen : (oldOf h.lines).length = 0 := by have := hwf.2.1; omega
-    refine ⟨l.line.toNat, by omega, by omega, by omega, fun hne => absurd hc hne⟩
+    refine ⟨l.line.toNat, by omega, by omega, by omega, fun k _ => Splice.delAt_of_ge (by omega),
+      fun hne => absurd hc hne⟩
   · obtain ⟨p, f, h1, _, h3, h4, _⟩ := locate_sound file h iw off maxFuzz minLine l hl hc
-    exact ⟨p, h1, h3, admissibleB_fit h4, fun _ => ⟨f, h4⟩⟩
+    exact ⟨p, h1, h3, by have := (admissibleB_fit h4).2; omega, admissibleB_tail h4, fun _ => ⟨f, h4⟩⟩
 
 /-- every item tagged "original line i" really carries the bytes and terminator of line i -/
 theorem spliceAt_fromFile (file : List Line) (c : Nat) (pls : List (Hunk × Nat)) :
@@ -66,7 +87,8 @@ theorem spliceAt_complete (file : List Line) (c : Nat) (pls : List (Hunk × Nat)
 /-- **C02 at the level of apply_patch**: for every file, every sequence of well-formed hunks (any line numbers, any
     order, overlapping), every -F, with and without -l, -R, -N, -t, -f and every tty answer stream: if
     `apply_patch` returns, its output is the splice of the file with a list of placements that are in increasing
-    order, non-overlapping, inside the file, and each admissible. -/
+    order, non-overlapping, starting inside the file (and reaching beyond its end only with context lines at the end of the hunk which
+    fuzz ignores, D99: `increasingB` / `spliceAt` go on from `nextCursor`), and each admissible. -/
 theorem C02_apply (file : List Line) (p0 : Patch) (o : ApplyOpts) (tty : Option (List Bool)) (r : ApplyResult)
     (hwf : ∀ h ∈ p0.hunks, h.WF) (hD : o.define = [])
     (hr : applyPatch file p0 o tty = .ok r) :
